@@ -90,8 +90,36 @@ func c32(c *Ctx) {
 		c.MustFact(pk, "not-the-generation-already-tried", Cmp(AnyV, token.NEQ, FieldLoadOn(fCh, load)))
 		sel := one(c, "blocking select in pick", instrsWhere(f, func(in ssa.Instruction) bool { s, ok := in.(*ssa.Select); return ok && s.Blocking }))
 		c.MustFact(sel, "blocks-only-on-current-generation-channel", Cmp(AnyV, token.EQL, FieldLoadOn(fCh, load)))
-		// no picker -> must block: the Pick call is unreachable while the picker is nil
-		c.Unreachable(pk, "nil-picker-blocks", IsNil(FieldLoadOn(fPicker, load)))
+		// no picker -> must block: on the arm where the picker is nil, the waited-on channel is set to this
+		// generation's channel, which is exactly the value the "already tried" test compares with (so that
+		// test sends the call to the blocking select; the Pick call requires the two to differ, above)
+		waited := func(v ssa.Value) bool { // the `ch` compared with the generation's channel at the Pick call
+			for _, fc := range FactsAt(pk) {
+				if fc.Kind == "cmp" && fc.Op == token.NEQ {
+					if FieldLoadOn(fCh, load)(fc.Y) && fc.X == v || FieldLoadOn(fCh, load)(fc.X) && fc.Y == v {
+						return true
+					}
+				}
+			}
+			return false
+		}
+		okNil := false
+		for _, b := range f.Blocks {
+			for _, in := range b.Instrs {
+				ph, ok := in.(*ssa.Phi)
+				if !ok || !waited(ph) {
+					continue
+				}
+				for i, e := range ph.Edges {
+					pr := ph.Block().Preds[i]
+					fs := append(append([]Fact(nil), FactsAtBlock(pr)...), edgeOnlyFacts(pr, ph.Block())...)
+					if _, isNilArm := hasFact(fs, IsNil(FieldLoadOn(fPicker, load))); isNilArm {
+						okNil = FieldLoadOn(fCh, load)(e)
+					}
+				}
+			}
+		}
+		c.Expect(okNil, pk, f, "nil-picker-blocks", "with no picker yet the pick does not arrange to block on the current generation's channel")
 		for _, r := range returnsOf(f) {
 			if GlobalLoad(c.konst("grpc", "ErrClientConnClosing"))(r.Results[1]) {
 				c.MustFact(r, "closed-wrapper-ends-pick", IsNil(load))
